@@ -214,11 +214,10 @@ func session(t run.TB, c Case) (rendered int) {
 	for _, e := range c.Enums {
 		x.sources[e[0]] = e[1]
 	}
-	if hugeExponent.MatchString(c.Schema + strings.Join(c.Docs, " ")) {
-		// only cases that can blow up memory pay for the write-ahead file
-		run.WriteAhead(chk, c.enc())
-		defer run.ClearAhead()
-	}
+	// a fatal error of the runtime (stack overflow, out of memory) cannot be recovered: the case is
+	// written ahead so that the driver can attribute the death of this process to it
+	run.WriteAhead(chk, c.enc())
+	defer run.ClearAhead()
 	done := make(chan struct{})
 	go func() {
 		defer close(done)
